@@ -181,7 +181,9 @@ func (g *genCtx) closureBody() []*Stmt {
 	g.vars, g.inLoop, g.inClos, g.void = vars, false, true, true
 	body := g.block(2, 3)
 	if len(body) == 0 || body[len(body)-1].Kind != "return" {
-		body = append(body, &Stmt{Kind: "return"})
+		if !(g.allowFallOff && len(body) > 0 && rapid.Bool().Draw(g.t, "closure-falloff")) {
+			body = append(body, &Stmt{Kind: "return"})
+		}
 	}
 	g.vars, g.inLoop, g.inClos, g.void, g.loopVars = saveVars, saveLoop, saveClos, saveVoid, saveLoopVars
 	return body
@@ -255,7 +257,7 @@ func genProg(t *rapid.T, allowFallOff bool) *Prog {
 	nf := rapid.SampledFrom([]int{1, 2, 3, 3, 4, 4, 5, 5}).Draw(t, "nfuncs")
 	for fi := 0; fi < nf; fi++ {
 		f := &Func{Name: fmt.Sprintf("f%d", fi)}
-		g := &genCtx{t: t, p: p, fi: fi, budget: 8}
+		g := &genCtx{t: t, p: p, fi: fi, budget: 8, allowFallOff: allowFallOff}
 		if fi == nf-1 {
 			f.Name = "main"
 			f.Result = true
